@@ -143,3 +143,18 @@ package kvgraph
 //@       VertexKey(g, id) != SrcEdgeKey(g2, src, dst, id2, label, et) && VertexKey(g, id) != DstEdgeKey(g2, src, dst, id2, label, et) &&
 //@       SrcEdgeKey(g, src, dst, id, label, et) != DstEdgeKey(g2, src2, dst2, id2, label2, et) &&
 //@       EdgeKey(g, id, src, dst, label, et) != SrcEdgeKey(g2, src2, dst2, id2, label2, et)
+
+// ---- C16: a graph name addresses only that graph's index fields ---------------------
+// Index fields are named "<graph>.v.<...>" / "<graph>.e.<...>"; graph names contain no
+// '.', so the first dot-component of a field name is its graph.
+//@ func (*KVGraph).deleteGraphIndex
+//@   property C16
+//@   option prelude=keys
+//@   option load=kvindex,kvi
+//@   requires nonnil: kgraph != nil && kgraph.idx != nil && kgraph.idx.Fields != nil
+//@   let reg = kgraph.idx.Fields
+//@   loop 1 invariant only: forall f:Str :: has(reg, f) ==> old(has(reg, f))
+//@   loop 1 invariant keep: forall f:Str :: old(has(reg, f)) && slnth(bsplit(f, "."), 0) != graph ==> has(reg, f)
+//@   loop 1 invariant done: forall j :: 0 <= j && j <= rangeindex && slnth(bsplit(fields[j], "."), 0) == graph ==> !has(reg, fields[j])
+//@   ensures removed: forall f:Str :: old(has(reg, f)) && slnth(bsplit(f, "."), 0) == graph ==> !has(reg, f)
+//@   ensures isolated: forall f:Str :: old(has(reg, f)) && slnth(bsplit(f, "."), 0) != graph ==> has(reg, f)
